@@ -24,6 +24,7 @@ from beartype.typing import Any, Dict, Union, List, Tuple
 from typing_extensions import NoReturn
 from pathlib import Path
 import jinja2
+import copy
 import math
 import os
 import pwd
@@ -166,7 +167,7 @@ class Generator(CodeGenerator):
     def generate(self, fcp: FcpV2, ctx: Any) -> List[Dict[str, Union[str, Path]]]:
         """Generate cpp files."""
         fcp_reflection = get_reflection_schema().unwrap()
-        fcp = generate_rpc(fcp)
+        fcp = generate_rpc(copy.deepcopy(fcp))
 
         output_builder = OutputBuilder(
             {
